@@ -288,7 +288,7 @@ reg("C14",
     clauses={1: "http format: returned targets differ from the described ones (order, merge of defaults, exhaustion)",
              2: "http format: a target returned earlier changed when a later one was decoded", 3: "http format: the default headers were modified",
              4: "json format: returned targets differ from the described ones", 5: "json format: an earlier target changed", 6: "json format: the default headers were modified",
-             7: "http format: ReadAllTargets (eager reading) returns other targets than call-by-call reading", 8: "json format: ReadAllTargets (eager reading) returns other targets than call-by-call reading"},
+             7: "http format: eager reading (ReadAllTargets, then the static targeter the attack command uses) hands out other targets, or in another order, than call-by-call reading", 8: "json format: eager reading (ReadAllTargets, then the static targeter) hands out other targets, or in another order, than call-by-call reading"},
     assumptions=["url.ParseRequestURI: reference predicate url_ok; os.ReadFile: finite map; bufio.Scanner token limit (64 KiB) not modelled",
                  "the generated easyjson object decoder is an oracle: each JSON line's meaning is supplied by encoding/json (independent reader)",
                  "strings.TrimSpace restricted to ASCII white space"],
